@@ -47,6 +47,11 @@ def run(tier):
             k = sorted(runs)[0]
             rep.sample({"source": "random", "steps": [{"argv": e["argv"], "now": e["now"]} for e in runs[k][1:12]]})
         os.remove(tr)
+    # many deadlines coming due between two commands (active expiry at scale)
+    tr = os.path.join(wd, "mass.ndjson")
+    vlib.vh(["ks", "mass", "--tier", tier, "--out", tr])
+    kc.validate(rep, wd, tr, "mass_expiry")
+    os.remove(tr)
     rep.notes["commands_by_model_op"] = hist
     rep.cov["distinct_nontrivial"] = rep.cov["traces_validated_against_impl"]
     rep.cov["rule"] = ("a case is one command sequence on a fresh executor under a scripted clock (TLC-exported: <= 3-4 steps "
